@@ -35,6 +35,11 @@ def reported_dx(which):
     out = wf.focus(efl, Q=Q) if which == 'focus' else wf.unfocus(efl, Q=Q)
     check('shape', shape_is(out.data, m * Q, n * Q))
     check('dx', approx(out.dx * (n * Q) * dx, wvl * efl))
+    # fractional Q: the padded array has ceil(n Q) samples, and THAT count sets the spacing
+    Qr = Real('Qr', 1, 3)
+    out2 = wf.focus(efl, Q=Qr) if which == 'focus' else wf.unfocus(efl, Q=Qr)
+    check('shape-real-Q', shape_is(out2.data, ceil(m * Qr), ceil(n * Qr)))
+    check('dx-real-Q', approx(out2.dx * ceil(n * Qr) * dx, wvl * efl))
     check('space', out.space == ('psf' if which == 'focus' else 'pupil'))
     check('wavelength', out.wavelength == wvl)
     check('wrong-space-raises', did_raise(lambda: (wf.unfocus(efl, Q=Q) if which == 'focus' else wf.focus(efl, Q=Q)), ValueError))
@@ -66,28 +71,33 @@ def tilt_lands(which):
         iy, ix = np.unravel_index(np.argmax(I), I.shape)
         return (iy - I.shape[0] // 2) * odx_y, (ix - I.shape[1] // 2) * odx_x
     if which == 'fft-route':
-        Q = int(rng.integers(1, 4))
+        Q = int(rng.integers(1, 4)) if rng.random() < 0.5 else float(rng.choice([1.5, 2.2, 2.5, 1.25]))
         out = pr.Wavefront(pupil, wvl, dx, 'pupil').focus(efl, Q=Q)
         py, px = locate(out.data, out.dx, out.dx)
-        check('x-axis', bool(np.isclose(px, want_x, atol=1e-6 * abs(out.dx) + 1e-9)))
+        # integer Q: the spot sits exactly on a sample; fractional Q: within half a sample of the physical position
+        atol = (1e-6 if isinstance(Q, int) else 0.5001) * abs(out.dx) + 1e-9
+        check('x-axis', bool(np.isclose(px, want_x, atol=atol)))
         if m == n:
-            check('y-axis(square)', bool(np.isclose(py, want_y, atol=1e-6 * abs(out.dx) + 1e-9)))
+            check('y-axis(square)', bool(np.isclose(py, want_y, atol=atol)))
         else:
             check('y-axis(non-square)', bool(np.isclose(py, want_y, atol=1e-6 * abs(out.dx) + 1e-9)))
     elif which == 'fixed-sampling':
-        q = int(rng.integers(1, 4))
+        q = int(np.ceil(2 * m / n)) + int(rng.integers(0, 2))      # at least two samples per resolution element on BOTH axes
         # choose the output spacing so that one wave of tilt is q samples on the x axis
         odx = wvl * efl / (Dx * q)
-        S = (int(2 * q * m / n + 8) | 1, 2 * q + 7)
+        S = (n * q - 1, n * q - 1)          # stay inside one period (n q samples on both axes) of the sampled transform
         for method in ('mdft', 'czt'):
             out = pr.focus_fixed_sampling(pupil, dx, efl, wvl, odx, S, method=method)
             py, px = locate(out, odx, odx)
             check('x-axis-' + method, bool(np.isclose(px, want_x, atol=0.51 * odx)))
             check('y-axis-' + method, bool(np.isclose(py, want_y, atol=0.51 * odx)))
     elif which == 'shift-translates':
-        odx = wvl * efl / (Dx * 2)
-        S = (15, 17)
-        sx, sy = int(rng.integers(-3, 4)) * odx, int(rng.integers(-3, 4)) * odx
+        qq = max(2, int(np.ceil(2 * m / n)))
+        odx = wvl * efl / (Dx * qq)
+        S = (qq * n - 1, qq * n - 1)          # inside one period (qq n samples on both axes), >= 2 samples per resolution element
+        lim = max(1, (qq * n - 1) // 2 - qq - 2)      # keep the displaced spot inside the window
+        sx, sy = int(rng.integers(-lim, lim + 1)) * odx, int(rng.integers(-lim, lim + 1)) * odx
+        pupil = np.ones((m, n), dtype=complex)      # untilted: the spot sits exactly on the origin sample (no half-sample ties)
         for method in ('mdft', 'czt'):
             a = pr.focus_fixed_sampling(pupil, dx, efl, wvl, odx, S, shift=(0, 0), method=method)
             b = pr.focus_fixed_sampling(pupil, dx, efl, wvl, odx, S, shift=(sx, sy), method=method)
@@ -101,10 +111,17 @@ def tilt_lands(which):
         check('methods-agree-on-direction', locate(a, odx, odx) == locate(b, odx, odx))
     else:
         # a displaced focal spot unfocuses to the corresponding pupil tilt
-        odx = wvl * efl / (Dx * 2)
-        S = (2 * m + 1, 2 * n + 1)
+        qq = max(2, int(np.ceil(2 * m / n)))
+        odx = wvl * efl / (Dx * qq)
+        S = (qq * n - 1, qq * n - 1)
         F = pr.focus_fixed_sampling(pupil, dx, efl, wvl, odx, S, method='mdft')
         back = pr.unfocus_fixed_sampling(F, odx, efl, wvl, dx, (m, n), method='mdft')
         ph = np.angle(back * np.conj(pupil))
         good = abs(back) > 0.3 * abs(back).max()
         check('tilt-recovered', bool(np.allclose(ph[good] - ph[good].mean(), 0, atol=0.35)))
+        # a REAL-valued displaced spot: both methods must give the same pupil field (same sign of tilt)
+        spot = np.zeros(S)
+        spot[S[0] // 2 + int(rng.integers(-2, 3)), S[1] // 2 + int(rng.integers(-2, 3))] = 1.0
+        a = pr.unfocus_fixed_sampling(spot, odx, efl, wvl, dx, (m, n), method='mdft')
+        b = pr.unfocus_fixed_sampling(spot, odx, efl, wvl, dx, (m, n), method='czt')
+        check('real-spot-methods-agree', bool(np.allclose(a, b, atol=1e-8)))
